@@ -2,6 +2,7 @@ package main
 
 import (
 	"bytes"
+	"math/big"
 	"context"
 	"fmt"
 	"os"
@@ -49,7 +50,11 @@ func (vc *VC) prelude(forCvc5 bool) string {
 }
 
 // incrementalScript renders all obligations of the VC as one push/pop script.
-func (vc *VC) incrementalScript(obls []*Obl) string {
+func (vc *VC) incrementalScript(obls []*Obl) string { return vc.incrementalScriptG(obls, false) }
+
+// incrementalScriptG: with ground=true the quantified hypotheses are left out (only their instances at the
+// goal's skolem terms remain); dropping hypotheses is sound for a proof.
+func (vc *VC) incrementalScriptG(obls []*Obl, ground bool) string {
 	var sb strings.Builder
 	sb.WriteString(vc.prelude(false))
 	byPrefix := map[int][]*Obl{}
@@ -59,15 +64,15 @@ func (vc *VC) incrementalScript(obls []*Obl) string {
 	emit := func(n int) {
 		for _, o := range byPrefix[n] {
 			fmt.Fprintf(&sb, "(echo \"@obl %s\")\n(push 1)\n", o.Name)
-			fmt.Fprintf(&sb, "(assert %s)\n", o.Guard.String())
-			if !o.WantSat {
-				fmt.Fprintf(&sb, "(assert (not %s))\n", o.Cond.String())
-			}
+			sb.WriteString(vc.oblQuery(o))
 			sb.WriteString("(check-sat)\n(pop 1)\n")
 		}
 	}
 	for i, f := range vc.facts {
 		emit(i)
+		if ground && hasQuant(f) {
+			continue
+		}
 		fmt.Fprintf(&sb, "(assert %s)\n", f.String())
 	}
 	emit(len(vc.facts))
@@ -75,16 +80,18 @@ func (vc *VC) incrementalScript(obls []*Obl) string {
 }
 
 // singleScript renders one obligation as a stand-alone query (with model request).
-func (vc *VC) singleScript(o *Obl, getValues []string) string {
+func (vc *VC) singleScript(o *Obl, getValues []string) string { return vc.singleScriptG(o, getValues, false) }
+
+func (vc *VC) singleScriptG(o *Obl, getValues []string, ground bool) string {
 	var sb strings.Builder
 	sb.WriteString(vc.prelude(false))
 	for _, f := range vc.facts[:o.NFacts] {
+		if ground && hasQuant(f) {
+			continue
+		}
 		fmt.Fprintf(&sb, "(assert %s)\n", f.String())
 	}
-	fmt.Fprintf(&sb, "(assert %s)\n", o.Guard.String())
-	if !o.WantSat {
-		fmt.Fprintf(&sb, "(assert (not %s))\n", o.Cond.String())
-	}
+	sb.WriteString(vc.oblQuery(o))
 	sb.WriteString("(check-sat)\n")
 	if len(getValues) > 0 {
 		fmt.Fprintf(&sb, "(get-value (%s))\n", strings.Join(getValues, " "))
@@ -93,6 +100,10 @@ func (vc *VC) singleScript(o *Obl, getValues []string) string {
 }
 
 func runSolver(s SolverCfg, file string, perQueryMs int, totalTimeout time.Duration) (string, error) {
+	return runSolverCtx(context.Background(), s, file, perQueryMs, totalTimeout)
+}
+
+func runSolverCtx(parent context.Context, s SolverCfg, file string, perQueryMs int, totalTimeout time.Duration) (string, error) {
 	var args []string
 	switch s.Bin {
 	case "cvc5":
@@ -100,7 +111,7 @@ func runSolver(s SolverCfg, file string, perQueryMs int, totalTimeout time.Durat
 	default:
 		args = []string{"-smt2", fmt.Sprintf("-t:%d", perQueryMs), file}
 	}
-	ctx, cancel := context.WithTimeout(context.Background(), totalTimeout)
+	ctx, cancel := context.WithTimeout(parent, totalTimeout)
 	defer cancel()
 	cmd := exec.CommandContext(ctx, s.Bin, args...)
 	var out bytes.Buffer
@@ -162,41 +173,59 @@ func solveVC(vc *VC, obls []*Obl, opts SolveOpts) {
 	}
 	os.MkdirAll(opts.WorkDir, 0o755)
 	base := filepath.Join(opts.WorkDir, sanitizeFile(vc.funcName()))
-	script := vc.incrementalScript(obls)
-	file := base + ".inc.smt2"
-	os.WriteFile(file, []byte(script), 0o644)
 	primary := allSolvers[0]
 	if !solverAvailable(primary) {
 		primary = allSolvers[1]
 	}
-	t0 := time.Now()
-	solveSem <- struct{}{}
-	out, err := runSolver(primary, file, opts.QuickMs, time.Duration(opts.QuickMs*len(obls)+20000)*time.Millisecond)
-	<-solveSem
-	el := time.Since(t0).Milliseconds()
-	res := parseIncremental(out)
-	_ = err
+	var proofs, vacs []*Obl
 	for _, o := range obls {
-		st, ok := res[o.Name]
-		if !ok {
-			st = "unknown"
-			if strings.Contains(out, "(error") {
-				st = "error: " + firstErrorLine(out)
-			}
+		if o.WantSat {
+			vacs = append(vacs, o)
+		} else {
+			proofs = append(proofs, o)
 		}
-		o.Status = st
-		o.Solver = primary.Name
-		o.Millis = el / int64(len(obls))
 	}
-	if !opts.KeepFiles {
-		os.Remove(file)
+	runInc := func(set []*Obl, ground bool, tag string) {
+		if len(set) == 0 {
+			return
+		}
+		file := base + "." + tag + ".smt2"
+		os.WriteFile(file, []byte(vc.incrementalScriptG(set, ground)), 0o644)
+		t0 := time.Now()
+		solveSem <- struct{}{}
+		out, _ := runSolver(primary, file, opts.QuickMs, time.Duration(opts.QuickMs*len(set)+20000)*time.Millisecond)
+		<-solveSem
+		el := time.Since(t0).Milliseconds()
+		res := parseIncremental(out)
+		for _, o := range set {
+			st, ok := res[o.Name]
+			if !ok {
+				st = "unknown"
+				if strings.Contains(out, "(error") {
+					st = "error: " + firstErrorLine(out)
+				}
+			}
+			o.Status = st
+			o.Solver = primary.Name
+			o.Millis = el / int64(len(set))
+		}
+		if !opts.KeepFiles {
+			os.Remove(file)
+		}
 	}
+	runInc(proofs, vc.isBV(), "ground")
+	// vacuity probes use the quantifier-free part of the assumptions only: "unsat" there is conclusive
+	// (a subset of the assumptions is already contradictory); "sat"/"unknown" count as non-vacuous.
+	saveQ := opts.QuickMs
+	opts.QuickMs = 3000
+	runInc(vacs, true, "vac")
+	opts.QuickMs = saveQ
 	// re-check what is not settled, racing all solvers on stand-alone queries
 	var wg sync.WaitGroup
 	for _, o := range obls {
 		need := false
 		if o.WantSat {
-			need = o.Status != "sat" && o.Status != "unsat" // unknown: try others
+			need = false
 		} else {
 			need = o.Status != "unsat"
 		}
@@ -234,12 +263,16 @@ func sanitizeFile(s string) string {
 }
 
 func raceSingle(vc *VC, o *Obl, base string, opts SolveOpts) {
-	script := vc.singleScript(o, nil)
 	file := fmt.Sprintf("%s.%s.smt2", base, sanitizeFile(strings.TrimPrefix(o.Name, vc.funcName())))
-	os.WriteFile(file, []byte(script), 0o644)
+	os.WriteFile(file, []byte(vc.singleScriptG(o, nil, false)), 0o644)
+	gfile := strings.TrimSuffix(file, ".smt2") + ".ground.smt2"
+	if !o.WantSat {
+		os.WriteFile(gfile, []byte(vc.singleScriptG(o, nil, true)), 0o644)
+	}
 	defer func() {
 		if !opts.KeepFiles {
 			os.Remove(file)
+			os.Remove(gfile)
 		}
 	}()
 	type result struct {
@@ -248,17 +281,33 @@ func raceSingle(vc *VC, o *Obl, base string, opts SolveOpts) {
 		ms     int64
 		out    string
 	}
-	ch := make(chan result, len(allSolvers))
+	ch := make(chan result, 2*len(allSolvers))
 	n := 0
+	type job struct {
+		s      SolverCfg
+		file   string
+		ground bool
+	}
+	var jobs []job
 	for _, s := range allSolvers {
 		if !solverAvailable(s) {
 			continue
 		}
+		jobs = append(jobs, job{s, file, false})
+		if !o.WantSat {
+			jobs = append(jobs, job{s, gfile, true})
+		}
+	}
+	raceCtx, raceCancel := context.WithCancel(context.Background())
+	defer raceCancel()
+	for _, j := range jobs {
 		n++
-		go func(s SolverCfg) {
+		go func(j job) {
+			s := j.s
+			file := j.file
 			solveSem <- struct{}{}
 			t0 := time.Now()
-			out, err := runSolver(s, file, opts.SingleMs, time.Duration(opts.SingleMs+5000)*time.Millisecond)
+			out, err := runSolverCtx(raceCtx, s, file, opts.SingleMs, time.Duration(opts.SingleMs+5000)*time.Millisecond)
 			<-solveSem
 			st := "unknown"
 			if err != nil {
@@ -275,12 +324,25 @@ func raceSingle(vc *VC, o *Obl, base string, opts SolveOpts) {
 					break
 				}
 			}
-			ch <- result{s.Name, st, time.Since(t0).Milliseconds(), out}
-		}(s)
+			name := s.Name
+			if j.ground {
+				name += "/ground"
+				// a model of the weakened (ground) query is not a counterexample of the obligation
+				if st == "sat" {
+					st = "unknown"
+				}
+			}
+			ch <- result{name, st, time.Since(t0).Milliseconds(), out}
+		}(j)
 	}
 	var results []result
 	for i := 0; i < n; i++ {
-		results = append(results, <-ch)
+		r := <-ch
+		results = append(results, r)
+		if r.status == "unsat" && !opts.AllSolvers && !o.WantSat {
+			raceCancel() // first proof wins; stop the other solvers
+			break
+		}
 	}
 	// verdict: unsat from any solver discharges; in AllSolvers mode a sat from another solver is a disagreement
 	var unsat, sat *result
@@ -327,4 +389,189 @@ func (o *Obl) discharged() bool {
 		return o.Status != "unsat" && !strings.HasPrefix(o.Status, "error")
 	}
 	return o.Status == "unsat"
+}
+
+// ---------------------------------------------------------------- skolemisation and instantiation
+
+var skCounter int
+var skMu sync.Mutex
+
+func freshSk(b *Term) *Term {
+	skMu.Lock()
+	skCounter++
+	n := skCounter
+	skMu.Unlock()
+	name := strings.Trim(b.Op, "|")
+	return Atom(smtName(fmt.Sprintf("sk!%s!%d", name, n)), b.S)
+}
+
+// skolemize replaces universally quantified variables at positive positions of a goal by fresh constants.
+func skolemize(t *Term, positive bool, sks *[]*Term) *Term {
+	switch {
+	case t.Op == "forall" && positive, t.Op == "exists" && !positive:
+		m := map[string]*Term{}
+		for _, b := range t.Bound {
+			s := freshSk(b)
+			m[b.Op] = s
+			*sks = append(*sks, s)
+		}
+		return skolemize(t.Args[0].subst(m), positive, sks)
+	case t.Op == "and" || t.Op == "or":
+		args := make([]*Term, len(t.Args))
+		for i, a := range t.Args {
+			args[i] = skolemize(a, positive, sks)
+		}
+		return App(t.Op, SBool, args...)
+	case t.Op == "=>" && len(t.Args) == 2:
+		return App("=>", SBool, skolemize(t.Args[0], !positive, sks), skolemize(t.Args[1], positive, sks))
+	case t.Op == "not" && len(t.Args) == 1:
+		return App("not", SBool, skolemize(t.Args[0], !positive, sks))
+	}
+	return t
+}
+
+// instantiate returns instances of the positive universal quantifiers of hypothesis h at the given constants.
+func instantiate(h *Term, sks []*Term, limit int) []*Term {
+	var out []*Term
+	var rec func(t *Term, wrap func(*Term) *Term)
+	rec = func(t *Term, wrap func(*Term) *Term) {
+		switch {
+		case t.Op == "forall":
+			// candidates per bound variable
+			combos := []map[string]*Term{{}}
+			for _, b := range t.Bound {
+				var next []map[string]*Term
+				for _, c := range combos {
+					for _, s := range sks {
+						if !sameSort(s.S, b.S) {
+							continue
+						}
+						m := map[string]*Term{}
+						for k, v := range c {
+							m[k] = v
+						}
+						m[b.Op] = s
+						next = append(next, m)
+						if len(next) > limit {
+							break
+						}
+					}
+				}
+				combos = next
+				if len(combos) == 0 {
+					return
+				}
+			}
+			for _, m := range combos {
+				body := t.Args[0].subst(m)
+				out = append(out, wrap(body))
+				rec(body, wrap)
+			}
+		case t.Op == "and":
+			for _, a := range t.Args {
+				rec(a, wrap)
+			}
+		case t.Op == "=>" && len(t.Args) == 2:
+			ante := t.Args[0]
+			rec(t.Args[1], func(x *Term) *Term { return wrap(Implies(ante, x)) })
+		}
+	}
+	rec(h, func(x *Term) *Term { return x })
+	return out
+}
+
+func hasQuant(t *Term) bool {
+	found := false
+	t.walk(func(x *Term) {
+		if x.Op == "forall" || x.Op == "exists" {
+			found = true
+		}
+	})
+	return found
+}
+
+// oblQuery renders the assertions specific to one obligation (inside a push scope or a stand-alone file).
+func (vc *VC) oblQuery(o *Obl) string {
+	var sb strings.Builder
+	fmt.Fprintf(&sb, "(assert %s)\n", o.Guard.String())
+	if o.WantSat {
+		return sb.String()
+	}
+	var sks []*Term
+	goal := skolemize(o.Cond, true, &sks)
+	for _, s := range sks {
+		fmt.Fprintf(&sb, "(declare-const %s %s)\n", s.Op, s.S.String())
+	}
+	if len(sks) > 0 {
+		// besides the skolem constants themselves, instantiate at the additive index terms built from them
+		isSk := map[string]bool{}
+		for _, s := range sks {
+			isSk[s.Op] = true
+		}
+		seen := map[string]bool{}
+		var extra []*Term
+		var mentions func(t *Term) bool
+		mentions = func(t *Term) bool {
+			if len(t.Args) == 0 {
+				return isSk[t.Op]
+			}
+			for _, a := range t.Args {
+				if mentions(a) {
+					return true
+				}
+			}
+			return false
+		}
+		var collect func(t *Term)
+		collect = func(t *Term) {
+			if t.Op == "forall" || t.Op == "exists" {
+				return
+			}
+			if len(t.Args) > 0 && (t.Op == "bvadd" || t.Op == "bvsub" || t.Op == "+" || t.Op == "-") && (t.S.K == KInt || t.S.K == KBV) && mentions(t) {
+				k := t.String()
+				if !seen[k] && len(extra) < 14 && len(k) < 400 {
+					seen[k] = true
+					extra = append(extra, t)
+				}
+			}
+			// word indices derived from bit indices: d = x/2^k, and its neighbours d+1, d-1
+			if len(t.Args) == 2 && (t.Op == "bvsdiv" || t.Op == "bvudiv" || t.Op == "div") && (t.S.K == KInt || t.S.K == KBV) && mentions(t) {
+				k := t.String()
+				if !seen[k] && len(extra) < 14 && len(k) < 400 {
+					seen[k] = true
+					extra = append(extra, t)
+					var one *Term
+					var plus, minus string
+					if t.S.K == KBV {
+						one = BVLit(big.NewInt(1), t.S.W)
+						plus, minus = "bvadd", "bvsub"
+					} else {
+						one = IntLit64(1)
+						plus, minus = "+", "-"
+					}
+					extra = append(extra, App(plus, t.S, t, one), App(minus, t.S, t, one))
+				}
+			}
+			for _, a := range t.Args {
+				collect(a)
+			}
+		}
+		collect(goal)
+		sks = append(sks, extra...)
+		n := 0
+		for _, f := range vc.facts[:o.NFacts] {
+			if !hasQuant(f) {
+				continue
+			}
+			for _, inst := range instantiate(f, sks, 24) {
+				fmt.Fprintf(&sb, "(assert %s)\n", inst.String())
+				n++
+				if n > 400 {
+					break
+				}
+			}
+		}
+	}
+	fmt.Fprintf(&sb, "(assert (not %s))\n", goal.String())
+	return sb.String()
 }
